@@ -135,3 +135,108 @@ def job_full(args):
         out[s] = outcome(full, args["models"], args["options"], s)
         out[s + "#sched"] = sched_report()
     return out
+
+
+# ---- canonical model graph (C07 oracle) -----------------------------------------------------------------------------
+_SUFFIX = re.compile(r"_\d+[A-Z]$")
+
+
+def _shape(t):
+    """Type shape as a tree: unions and literal sets are unordered (sorted at render time, *after* model references
+    have been replaced by colours), model references are holes ("ref", index)."""
+    from inspect import isclass
+    from json_to_models.dynamic_typing import (DDict, DList, DOptional, DTuple, DUnion, ModelMeta, ModelPtr, Null,
+                                               StringLiteral, Unknown)
+    if isclass(t):
+        return ("cls", t.__name__)
+    if t is Null:
+        return ("null",)
+    if t is Unknown:
+        return ("unknown",)
+    if isinstance(t, ModelPtr):
+        return ("ref", t.type.index)
+    if isinstance(t, ModelMeta):
+        return ("ref", t.index)
+    if isinstance(t, DOptional):
+        return ("opt", _shape(t.type))
+    if isinstance(t, DUnion):
+        return ("union", [_shape(x) for x in t.types])
+    if isinstance(t, DTuple):
+        return ("tuple", [_shape(x) for x in t.types])
+    if isinstance(t, DList):
+        return ("list", _shape(t.type))
+    if isinstance(t, DDict):
+        return ("dict", _shape(t.type))
+    if isinstance(t, StringLiteral):
+        if t.overflowed:
+            return ("cls", "str")
+        return ("lit", sorted(t.literals))
+    if isinstance(t, dict):
+        return ("rawdict", sorted((k, _shape(v)) for k, v in t.items()))
+    return ("other", type(t).__name__)
+
+
+def _render(sh, ref):
+    k = sh[0]
+    if k == "cls":
+        return sh[1]
+    if k in ("null", "unknown"):
+        return k
+    if k == "ref":
+        return "@" + ref(sh[1])
+    if k in ("opt", "list", "dict"):
+        return f"{k}({_render(sh[1], ref)})"
+    if k == "union":
+        return "union{" + "|".join(sorted(set(_render(x, ref) for x in sh[1]))) + "}"
+    if k == "tuple":
+        return "tuple(" + ",".join(_render(x, ref) for x in sh[1]) + ")"
+    if k == "lit":
+        return "lit{" + "|".join(repr(x) for x in sh[1]) + "}"
+    if k == "rawdict":
+        return "rawdict{" + ",".join(f"{a}:{_render(b, ref)}" for a, b in sh[1]) + "}"
+    return f"{k}:{sh[1]}"
+
+
+def canonical_graph(reg):
+    """Multiset of model colours after colour refinement (isomorphism invariant; see DESIGN.md 4.2)."""
+    from json_to_models.dynamic_typing import DOptional
+    import hashlib
+    models = list(reg.models)
+    desc, names = {}, {}
+    for m in models:
+        fields = []
+        for fname, ftype in m.type.items():
+            opt = isinstance(ftype, DOptional)
+            fields.append((fname, opt, _shape(ftype.type if opt else ftype)))
+        names[m.index] = _SUFFIX.sub("", m.name or "")
+        desc[m.index] = fields
+
+    def colours(ref):
+        out = {}
+        for ix, fields in desc.items():
+            body = sorted((f, o, _render(sh, ref)) for f, o, sh in fields)
+            out[ix] = hashlib.sha1(repr((names[ix], body)).encode()).hexdigest()[:12]
+        return out
+
+    colour = colours(lambda ix: "")
+    for _ in range(len(models)):  # fixed number of rounds (a function of the model count): isomorphic graphs agree
+        prev = colour
+        colour = colours(lambda ix: prev.get(ix, "?"))
+    readable = []
+    for ix, fields in desc.items():
+        body = sorted(f"{f}{'?' if o else ''}: " + _render(sh, lambda i: names.get(i, "?")) for f, o, sh in fields)
+        readable.append(f"{names[ix]} {{ " + "; ".join(body) + " }")
+    return {"canon": sorted(colour.values()), "readable": sorted(readable)}
+
+
+def job_infer_canon(args):
+    """args: {models, options} -> {"canon":..., "readable":..., "merges": n} or {"exc":...}"""
+    set_schedule(None)
+
+    def go():
+        gen, reg = infer(args["models"], args["options"])
+        return canonical_graph(reg)
+
+    out = outcome(go)
+    out["sched"] = {"points": SCHED.points}
+    return out
